@@ -1265,8 +1265,17 @@ func (s *appStream) checkTx(p *pendingTx) {
 	seqok := "1"
 	if p.priv != nil {
 		addr := sdk.AccAddress(p.priv.PubKey().Address())
-		if acc := s.sim.App.AccountKeeper.GetAccount(s.sim.CheckCtx(), addr); acc != nil && acc.GetSequence() != p.seq {
-			seqok = "0"
+		if acc := s.sim.App.AccountKeeper.GetAccount(s.sim.CheckCtx(), addr); acc != nil {
+			if acc.GetSequence() != p.seq {
+				seqok = "0"
+			}
+			// Right after a process restart the check state carries an empty header (height 0) until the next
+			// commit; cosmos-sdk then verifies signatures against account number 0 ("genesis"), so a transaction of
+			// an account with another number is refused.  The signature facts are stated by the harness.
+			if s.sim.Height > 0 && s.sim.App.GetContextForCheckTx(nil).BlockHeight() == 0 && acc.GetAccountNumber() != 0 && o.Str("sigok") == "1" {
+				o.Set("sigok", "0")
+				o.Cls += "/restart-genesis-accnum"
+			}
 		}
 	}
 	o.Add("ante", "check").Add("seqok", seqok).Add("height", s.sim.Height)
